@@ -87,6 +87,7 @@ def run_batch(prop, tier, seed, nworkers=None, run_list=None, hashseed=None, qui
 	# workers per env group, proportional, at least one for non-empty groups
 	nonempty = [e for e in range(len(envs)) if groups[e]]
 	share = {e: max(1, (nworkers * len(groups[e])) // max(1, len(all_runs))) for e in nonempty}
+	sweep_stale_scratch()
 	tmpdir = tempfile.mkdtemp(prefix=f'gvsim-{prop}-', dir=_tmp_root())
 	t0 = time.time()
 	procs = []
@@ -149,6 +150,19 @@ def run_batch(prop, tier, seed, nworkers=None, run_list=None, hashseed=None, qui
 		else:
 			os.environ['GVSIM_HASHSEED'] = old_hs
 		shutil.rmtree(tmpdir, ignore_errors=True)
+
+
+def sweep_stale_scratch():
+	"""Scratch directories of workers that were killed (watchdog, vp stop) stay behind: remove those whose process is gone."""
+	root = _tmp_root()
+	try:
+		names = os.listdir(root)
+	except OSError:
+		return
+	for name in names:
+		m = re.match(r'^gvsim-(\d+)$', name)
+		if m and not os.path.exists(f'/proc/{m.group(1)}'):
+			shutil.rmtree(os.path.join(root, name), ignore_errors=True)
 
 
 def _slot(run, w):
